@@ -1312,6 +1312,21 @@ class Engine:
                     sl = self.ex.fresh(f'[{em.group(1)}]' if em else '[?]', v.name + '.slice')
                     v.fields['__slice'] = Cell(sl)
                 return RefV(v.fields['__slice'])
+        mm = re.match(r'^core::slice::<impl \[(.*)\]>::(first|first_mut)$', c)
+        if mm:      # std: `first()` is `get(0)`
+            r_ = self.model_call(st, f"core::slice::<impl [{mm.group(1)}]>::{'get' if mm.group(2) == 'first' else 'get_mut'}::<usize>", [args[0], IntV(z3.IntVal(0), 'usize')])
+            if r_ is not None: return r_
+        mm = re.match(r'^<Vec<u8> as PartialEq<(&\[u8\]|\[u8\]|&\[u8; 8\]|\[u8; 8\])>>::(eq|ne)$', c)
+        if mm:
+            # whole instruction data against an 8-byte discriminator (the only byte strings the encoder knows are 8-byte discriminators and seed prefixes, interned
+            # as scalars): equal iff the data IS 8 bytes long and those 8 bytes are the discriminator
+            v = self.deref_val(args[0]); b = self.deref_val(args[1])
+            if isinstance(v, StructV) and hasattr(b, 'e'):
+                if '__len' not in v.fields:
+                    ln = z3.Int(v.name + '.len'); self.ex.assumptions.append(z3.And(ln >= 0, ln <= 2000)); v.fields['__len'] = IntV(ln, 'usize')
+                if '__d8' not in v.fields: v.fields['__d8'] = IntV(z3.Int(v.name + '.d8'), 'bytes')
+                eq_ = z3.And(v.fields['__len'].e == 8, v.fields['__d8'].e == b.e)
+                return BoolV(eq_ if mm.group(2) == 'eq' else z3.Not(eq_))
         mm = re.match(r'^core::slice::<impl \[(.*)\]>::(get|get_mut)::<usize>$', c)
         if mm and isinstance(args[1], IntV) and z3.is_int_value(z3.simplify(args[1].e)):
             lst = args[0]; lv = self.deref_val(lst); k_ = z3.simplify(args[1].e).as_long()
@@ -1514,7 +1529,7 @@ class Engine:
                 e = lv.fields[i]
                 alts.append(z3.And(i < ln, self.deref_val(e.fields[0]).e == tp.e, self.deref_val(e.fields[1]).e == tb.e))
             return BoolV(z3.Or(alts))
-        if re.match(r'^core::slice::<impl \[&\[u8\]\]>::contains$', c):
+        if re.match(r'^core::slice::<impl \[&\[u8\]\]>::contains$', c) and not os.environ.get('MIRSYM_SELFTEST_NO_CONTAINS'):
             # `hashes.contains(&discrim)` == `hashes.iter().any(|&h| h == discrim)` (std definition); byte strings are uninterpreted scalars
             lv = self.deref_val(args[0]); t = self.deref_val(args[1])
             if isinstance(lv, StructV) and hasattr(t, 'e'):
@@ -2168,6 +2183,29 @@ class Engine:
                     self.push_frame(ns, cf, [env], dest, retbb); outs.append(ns)
                 if not outs: raise PathEnd('infeasible')
                 return outs if len(outs) > 1 else None
+        um = re.match(r'^Option::<.*>::map_or::<.*?(\{closure@[^}]*\})>$', callee)
+        if v is None and um and isinstance(args[0], EnumV):
+            # None => the default, Some(x) => closure(x) (its MIR body is executed); a symbolic discriminant forks the path
+            o = args[0]; dm_ = re.match(r'^(_\d+)$', dest)
+            cf = self.closure_fn(um.group(1), st, fn.locals.get(dm_.group(1)) if dm_ else (fn.ret if dest == '_0' else None))
+            if cf is not None and cf.blocks and (not isinstance(o.disc, int) or o.disc == 0 or (1 in o.payload and 0 in o.payload[1])):
+                d = zint_(o.disc)
+                some_ok = self.feasible(st.pc + [d == 1]) and 1 in o.payload and 0 in o.payload[1]; none_ok = self.feasible(st.pc + [d == 0])
+                argstrs = [a for a in split_top(argstr, ',') if a.strip()]
+                outs = []
+                if some_ok and none_ok: self.stats['forks'] += 1
+                if none_ok:
+                    ns = st.clone() if some_ok else st
+                    ns.pc.append(d == 0); a2 = [self.operand(ns, a) for a in argstrs]
+                    self.assign(ns, dest, a2[1]); self.goto(ns, retbb); outs.append(ns)
+                if some_ok:
+                    ns = st
+                    ns.pc.append(d == 1); a2 = [self.operand(ns, a) for a in argstrs]
+                    env = a2[2] if len(a2) > 2 else StructV('closure', 'env', {}, lazy=False)
+                    ns.frames[-1]['bb'] = None
+                    self.push_frame(ns, cf, [env, a2[0].payload[1][0]], dest, retbb); outs.append(ns)
+                if not outs: raise PathEnd('infeasible')
+                return outs if len(outs) > 1 else None
         cm = re.match(r'^<(\{closure@[^}]*\}) as (Fn|FnMut|FnOnce)<\(.*\)>>::(call|call_mut|call_once)$', callee)
         if v is None and cm:
             dm_ = re.match(r'^(_\d+)$', dest)
@@ -2194,6 +2232,11 @@ class Engine:
             ty = fn.locals.get(dm.group(1)) if dm else None
             if dest == '_0': ty = fn.ret
             v = self.ex.fresh(ty, self.ex.fresh_name('ret_' + re.sub(r'\W+', '_', callee)[-30:])) if ty else Opaque('?', callee)
+            if isinstance(v, BoolV) and not self.is_opaque(callee) and re.search(r'^(core|std|alloc)::|^<.* as (core::|std::)?(iter::)?(Iterator|PartialEq|PartialOrd|Ord)[<>]|slice::<impl|^(Option|Result|Vec)::<|str>::', callee):
+                # a PREDICATE of the standard library that the encoder has no model for: its truth value is arbitrary here. A counterexample that hinges on it is
+                # a gap of the encoder, not a finding (see Ob.prove): remember the symbol
+                if not hasattr(self.ex, 'unmodelled_preds'): self.ex.unmodelled_preds = {}
+                for n_ in free_names(v.e): self.ex.unmodelled_preds[n_] = callee
             # an opaque callee may write through every `&mut` argument: havoc the pointees (over-approximation)
             hav = []
             for astr, aval in zip([a for a in split_top(argstr, ',') if a.strip()], args):
@@ -2211,6 +2254,17 @@ class Engine:
             st.events.append(('call', callee, args, v, hav))
         self.assign(st, dest, v)
         self.goto(st, retbb)
+
+
+def free_names(e):
+    out = set(); seen = set(); stack = [e]
+    while stack:
+        x = stack.pop()
+        if x.get_id() in seen: continue
+        seen.add(x.get_id())
+        if z3.is_const(x) and x.decl().kind() == z3.Z3_OP_UNINTERPRETED: out.add(x.decl().name())
+        else: stack.extend(x.children())
+    return out
 
 
 class Unmergeable(Exception):
